@@ -175,6 +175,10 @@ static void tick_to (int64_t t) {
 	if (t > now_ns) { now_ns = t; write_epoch++; vf_log_env ("tick %lld", (long long) t); if (sched_len < (int) (sizeof (sched_rec) / sizeof (sched_rec[0]))) { sched_rec[sched_len++] = -1; } }
 }
 static int pct_points[8]; static int pct_n; static int consec;
+/* strategy 4 (adversarial barging, C14): fiber 0 is the victim; it is scheduled only while the hook says the
+   mutex is held by somebody else (so that every retry of the victim loses the race), or when nobody else can run */
+int (*vf_victim_may_run_hook) (void);
+void (*vf_sem_sleep_hook) (int tid);
 
 int vf_run (void) {
 	int i;
@@ -219,6 +223,13 @@ int vf_run (void) {
 			/* a spinning high-priority fiber must not starve the others: demote it after a long run */
 			if (pick == cur) { consec++; } else { consec = 0; }
 			if (nrun > 1 && (fibers[pick].quiet_ops > 6 || consec > 60)) { fibers[pick].prio = 0; consec = 0; } /* below every change-point priority */
+		} else if (cfg.strategy == 4) {
+			int others[MAXF]; int no = 0; int v_ok = 0;
+			for (i = 0; i != nrun; i++) { if (run[i] == 0) { v_ok = 1; } else { others[no++] = run[i]; } }
+			if (v_ok && (no == 0 || (vf_victim_may_run_hook != NULL && (*vf_victim_may_run_hook) ()))) { pick = 0; }
+			else if (no != 0) {
+				if (cur > 0 && runnable (&fibers[cur]) && (vf_rand () % 4) != 0) { pick = cur; } else { pick = others[vf_rand () % no]; }
+			} else { pick = run[0]; }
 		} else {
 			int stick = cfg.strategy == 1 ? 4 : cfg.strategy == 2 ? 16 : 1;
 			if (cur >= 0 && runnable (&fibers[cur]) && (vf_rand () % stick) != 0) { pick = cur; }
@@ -447,6 +458,7 @@ void nsync_mu_semaphore_init (nsync_semaphore *s) { *sem_count (s) = 0; }
 void nsync_mu_semaphore_p (nsync_semaphore *s) {
 	struct fiber *f = &fibers[cur];
 	vf_log ("sem p_enter %s", sem_name (s));
+	if (*sem_count (s) == 0 && vf_sem_sleep_hook != NULL) { (*vf_sem_sleep_hook) (cur); }
 	f->st = F_BLOCKED_SEM; f->sem = s; f->deadline = INF_NS;
 	yield_to_sched ();
 	(*sem_count (s))--;
